@@ -356,6 +356,7 @@ func cases(thorough bool) []Case {
 func TestCheck(t *testing.T) {
 	r := mc.New(t, "C03")
 	defer r.Finish()
+	r.CrashFails = true
 	record := func(c Case, kind, detail string, refused bool) {
 		if c.Pairs {
 			r.Eval(pairsRun)
